@@ -1,6 +1,7 @@
 """C19 - streaming PKCS#7 padding is independent of chunking (sm4/padding)."""
 ID = "C19"
 PROPS = "Props/C19.v"
+COQ_TIMEOUT = 5400   # Coq build of this property incl. rebuilt dependencies; generous: on a loaded machine a rebuild after an upstream edit took > 1500 s
 LEGS = [{"driver": "c19", "runner": ("pad", "Extract/ExtractPad.v", "Pad_model")}]
 
 TECHNIQUE = "Coq proof over an executable model of sm4/padding (reader/writer/stream helpers) for all data, schedules and chunkings; model tied to /repo by differential runs of the extracted model"
